@@ -116,7 +116,7 @@ func Equal(addr1, addr2 string) bool {
 
 func IsASCII(s string) bool {
 	for _, ch := range s {
-		if ch > utf8.RuneSelf {
+		if ch >= utf8.RuneSelf {
 			return false
 		}
 	}
